@@ -397,6 +397,10 @@ func (pr *PartDecoder) Read(out []byte) (n int, err error) {
 	if pr.pos == int(total) {
 		return n, io.EOF
 	}
+	if err == io.EOF {
+		// The stream ended before the part did
+		err = io.ErrUnexpectedEOF
+	}
 	if pr.pos > int(total) {
 		log.Error("BIN Part Overflow:", pr.pos-int(total))
 	}
